@@ -51,6 +51,9 @@ def configs(tier):
         add("sdr-noap-norefresh", "other-bank-altrows-writes", refresh=False, ap=False, **SDR)
         add("sdr-refresh", "other-bank-writes", refresh=True, **SDR)
         add("sdr-refresh", "same-bank-gap3", refresh=True, **SDR)
+        add("sdr-refresh", "other-bank-altrows-writes", refresh=True, **SDR)
+        add("sdr-tccd2-norefresh", "other-bank-reads", refresh=False, timing=dict(tCCD=2), **SDR)
+        add("sdr-tccd2-norefresh", "other-bank-writes", refresh=False, timing=dict(tCCD=2), **SDR)
         add("ddr3x4-norefresh", "other-bank-altrows-writes", refresh=False, **DDR3)
         add("ddr3x4-norefresh", "same-bank-gap3", refresh=False, **DDR3)
     else:
